@@ -330,4 +330,94 @@ def maybeExhausted (x : Coder) : Bool := x.compressed.isEmpty
 /-- `Encode::maybe_full` -/
 def maybeFull (x : Coder) : Bool := x.remainders.isEmpty
 
+/-! ## schedules: the subjects of the history-level theorems, executed by the driver
+
+A *schedule* is a list of steps, each either "decode one symbol with model `m` (whose
+`Probability` type has `B` bits)" or "`change_precision::<q>()`"; a *log* records what a
+schedule did and has to be undone (re-encode the symbol / revert the precision). -/
+
+/-- the coder type after `change_precision::<q>()` -/
+def withP (c : Cfg) (q : Nat) : Cfg := { c with P := q }
+
+/-- the `Cfg` seen by an entropy model whose `Probability` type has `B` bits -/
+def withB (c : Cfg) (B : Nat) : Cfg := { c with B := B }
+
+inductive Step (Sym : Type) where
+  /-- `decode_symbol(m)` with `m::Probability::BITS = B` -/
+  | dec (B : Nat) (m : Model Sym)
+  /-- `change_precision::<q>()` -/
+  | prec (q : Nat)
+
+/-- what a successful step leaves to be undone -/
+inductive Done (Sym : Type) where
+  | dec (B : Nat) (m : Model Sym) (s : Sym)
+  | prec (old : Nat)
+
+/-- run a schedule; `none` as soon as a step reports an error.  Returns the log (oldest
+    first), the final coder type and the coder. -/
+def runDec {Sym : Type} (c : Cfg) : List (Step Sym) → Coder → Option (List (Done Sym) × Cfg × Coder)
+  | [], x => some ([], c, x)
+  | .dec B m :: rest, x =>
+    match decode (withB c B) m x with
+    | .ok (s, y) =>
+      match runDec c rest y with
+      | some (l, c', z) => some (.dec B m s :: l, c', z)
+      | none => none
+    | .error _ => none
+  | .prec q :: rest, x =>
+    match changePrecision c q x with
+    | .ok y =>
+      match runDec (withP c q) rest y with
+      | some (l, c', z) => some (.prec c.P :: l, c', z)
+      | none => none
+    | .error _ => none
+
+/-- undo a log, first entry first (so pass the reversed log of `runDec`) -/
+def runUndo {Sym : Type} (c : Cfg) : List (Done Sym) → Coder → Option (Cfg × Coder)
+  | [], y => some (c, y)
+  | .dec B m s :: rest, y =>
+    match encode (withB c B) m s y with
+    | .ok z => runUndo c rest z
+    | .error _ => none
+  | .prec old :: rest, y =>
+    match changePrecision c old y with
+    | .ok z => runUndo (withP c old) rest z
+    | .error _ => none
+
+/-- `runDec`, also reporting how far it got and which error stopped it: the log of the steps
+    done, the coder type and coder reached, and the error of the first failing step.  This is
+    what the driver executes (`CV.Chain.runDec_eq_runDecE` ties it to `runDec`). -/
+def runDecE {Sym : Type} (c : Cfg) :
+    List (Step Sym) → Coder → List (Done Sym) × Cfg × Coder × Option (DecErr ⊕ EncErr)
+  | [], x => ([], c, x, none)
+  | .dec B m :: rest, x =>
+    match decode (withB c B) m x with
+    | .ok (s, y) =>
+      let r := runDecE c rest y
+      (.dec B m s :: r.1, r.2.1, r.2.2.1, r.2.2.2)
+    | .error e => ([], c, x, some (.inl e))
+  | .prec q :: rest, x =>
+    match changePrecision c q x with
+    | .ok y =>
+      let r := runDecE (withP c q) rest y
+      (.prec c.P :: r.1, r.2.1, r.2.2.1, r.2.2.2)
+    | .error e => ([], c, x, some (.inr e))
+
+/-- `runUndo`, also reporting the number of entries undone and the error that stopped it
+    (`CV.Chain.runUndo_eq_runUndoE`). -/
+def runUndoE {Sym : Type} (c : Cfg) : List (Done Sym) → Coder → Nat × Cfg × Coder × Option EncErr
+  | [], y => (0, c, y, none)
+  | .dec B m s :: rest, y =>
+    match encode (withB c B) m s y with
+    | .ok z =>
+      let r := runUndoE c rest z
+      (r.1 + 1, r.2.1, r.2.2.1, r.2.2.2)
+    | .error e => (0, c, y, some e)
+  | .prec old :: rest, y =>
+    match changePrecision c old y with
+    | .ok z =>
+      let r := runUndoE (withP c old) rest z
+      (r.1 + 1, r.2.1, r.2.2.1, r.2.2.2)
+    | .error e => (0, c, y, some e)
+
 end CV.Chain
